@@ -215,41 +215,33 @@ def write_fasta(
             print(line, file=output)
 
 
-def _build_newick(tree, *, node, precision, node_labels, include_branch_lengths):
-    label = node_labels.get(node, "")
-    if tree.is_leaf(node):
-        s = f"{label}"
-    else:
-        s = "("
-        for child in tree.children(node):
-            branch_length = tree.branch_length(child)
-            subtree = _build_newick(
-                tree,
-                node=child,
-                precision=precision,
-                node_labels=node_labels,
-                include_branch_lengths=include_branch_lengths,
-            )
-            if include_branch_lengths:
-                subtree += ":{0:.{1}f}".format(branch_length, precision)
-            s += subtree + ","
-        s = s[:-1] + f"){label}"
-    return s
-
-
 def build_newick(tree, *, root, precision, node_labels, include_branch_lengths):
     """
-    Simple recursive version of the newick generator used when non-default
-    node labels are needed, or when branch lengths are omitted
+    Simple version of the newick generator used when non-default
+    node labels are needed, or when branch lengths are omitted. The traversal
+    uses an explicit stack so that the depth of the tree is not limited by
+    the interpreter's recursion limit.
     """
-    s = _build_newick(
-        tree,
-        node=root,
-        precision=precision,
-        node_labels=node_labels,
-        include_branch_lengths=include_branch_lengths,
-    )
-    return s + ";"
+    output = []
+    stack = [(root, False)]
+    while len(stack) > 0:
+        node, children_written = stack.pop()
+        if not children_written and not tree.is_leaf(node):
+            output.append("(")
+            stack.append((node, True))
+            stack.extend((child, False) for child in reversed(tree.children(node)))
+        else:
+            if children_written:
+                # Replace the separator written after the last child.
+                output[-1] = ")"
+            output.append(f"{node_labels.get(node, '')}")
+            if node != root:
+                if include_branch_lengths:
+                    branch_length = tree.branch_length(node)
+                    output.append(":{0:.{1}f}".format(branch_length, precision))
+                output.append(",")
+    output.append(";")
+    return "".join(output)
 
 
 def dump_text(
